@@ -21,6 +21,9 @@ fn main() {
     let code = match args.get(1).map(|s| s.as_str()) {
         Some("check") => search::check(&args),
         Some("replay") => search::replay(&args),
+        Some("range") => search::range(&args),
+        Some("plan-exec") => search::plan_exec(&args),
+        Some("crash-triage") => search::crash_triage(&args),
         Some("model") => {
             for m in dispatch::MODEL {
                 println!("{:3} {:14} {:10} async={} dynamic={} fn={:?} nfp={} props={:?}", m.id, m.name, m.section, m.is_async, m.dynamic, m.fn_id, m.nfp, m.props);
